@@ -21,6 +21,11 @@ def install(w):
                         "implies(not is_none(input_value) and not is_undefined(input_value),"
                         " not is_none(result))"],
                raises=[], modifies=[], locals={"coerced_list": ("list", "dyn")},
+               call_pre={
+                   "coerce_input_value#1": ["arg_type_ is of(type_)", "same(arg_input_value, input_value)"],
+                   "coerce_input_value#2": ["arg_type_ is of(type_)", "same(arg_input_value, input_value)"],
+                   "coerce_input_value#3": ["arg_type_ is of(type_)", "same(arg_input_value, item_value)"],
+                   "coerce_input_value#4": ["arg_type_ is field.type"]},
                decreases="ty_rank(type_)",
                loops={1: {"invariant": ["ListOk(input_value, item_type, _i)",
                                         "forall(j, 0, _i, Conf(coerced_list[j], item_type))",
@@ -44,8 +49,50 @@ def install(w):
                ensures=["ghost('errs') >= old(ghost('errs'))",
                         "(ghost('errs') > old(ghost('errs'))) == (not Valid(input_value, type_))"],
                raises=["Exception"], ghost_modifies=["errs"], modifies=[],
+               call_pre={
+                   "validate_input_value_impl#1": ["arg_type_ is of(type_)", "same(arg_input_value, input_value)"],
+                   "validate_input_value_impl#2": ["arg_type_ is of(type_)", "same(arg_input_value, input_value)"],
+                   "validate_input_value_impl#3": ["arg_type_ is of(type_)", "same(arg_input_value, item_value)"],
+                   "validate_input_value_impl#4": ["arg_type_ is field.type"]},
                decreases="ty_rank(type_)",
                loops={1: {"invariant": [
                    "ghost('errs') >= old(ghost('errs'))",
                    "(ghost('errs') > old(ghost('errs'))) == (not ListOk(input_value, item_type, _i))"]}},
                props={"C15"})
+
+
+def install_variables(w):
+    """get_variable_values (C15, C01): either the coerced values or a non-empty list of errors; with
+    an error limit n at most n errors plus the abort notice (the callback invariant is carried over
+    the call of coerce_variable_values by rely/guarantee: nothing else holds `errors`)."""
+    VAL = "graphql.execution.values"
+    w.alias("VariableValues", f"{VAL}.VariableValues")
+    # assumed here: only the GraphQLError of the callback leaves coerce_variable_values
+    w.contract(f"{VAL}.coerce_variable_values",
+               params={"schema": "dyn", "var_def_nodes": "dyn", "inputs": "dyn",
+                       "on_error": "opaque", "hide_suggestions": "bool"},
+               returns="ntuple:VariableValues", ensures=[], raises=["GraphQLError"], modifies=[],
+               assumed=True)
+    w.contract(f"{VAL}.get_variable_values",
+               params={"schema": "dyn", "var_def_nodes": "dyn", "inputs": "dyn",
+                       "max_errors": "opt:int", "hide_suggestions": "bool"},
+               returns="dyn", ensures=[], raises=[], modifies=[],
+               rely={"coerce_variable_values": {
+                   "closure": "on_error",
+                   "inv": ["implies(max_errors is not None and max_errors >= 0,"
+                           " len(errors) <= max_errors)"]}},
+               exit_post=[
+                   # values are returned only when nothing was reported
+                   "implies(result is not errors, len(errors) == 0)",
+                   "implies(result is errors, len(errors) >= 1)",
+                   "implies(result is errors and max_errors is not None and max_errors >= 0,"
+                   " len(errors) <= max_errors + 1)"],
+               props={"C15", "C01"})
+
+
+_inputs_prev = install
+
+
+def install(w):   # noqa: F811
+    _inputs_prev(w)
+    install_variables(w)
